@@ -14,9 +14,9 @@ TOKENS = ["MOV", "ADD", "AX", "EAX", "AL", "[", "]", ",", "+", "-", "*", "/", "%
 
 def classify(src):
     """known crash classes, decided from the input text"""
-    m = re.search(r"^\s*RESB\s+(0x[0-9a-fA-F]+|\d+)\s*$", src, re.M)
-    if m and int(m.group(1), 0) >= 1 << 31:
-        return "C13-resb-huge-allocation"
+    for m in re.finditer(r"^\s*RESB\s+(0x[0-9a-fA-F]+|\d+)\s*$", src, re.M):       # any RESB of the source, not only the first
+        if int(m.group(1), 0 if m.group(1).startswith("0x") else 10) >= 1 << 31:
+            return "C13-resb-huge-allocation"
     if src.count("(") > 20000:
         return "C13-deep-nesting-stack"
     return None
